@@ -10,6 +10,10 @@ import (
 	"bytes"
 	"encoding/binary"
 	"fmt"
+	"go/ast"
+	"go/parser"
+	"go/token"
+	"strconv"
 	"math/rand"
 	"os"
 	"path/filepath"
@@ -360,7 +364,72 @@ func allSeeds(r *rand.Rand, repo string) []seed {
 	s := sigSeeds(r, repo)
 	s = append(s, fileSeeds(repo)...)
 	s = append(s, structuredSeeds(r)...)
+	s = append(s, testLiteralSeeds(repo)...)
 	return s
+}
+
+// the samples the library's own tests are written with: every string literal of the *_test.go files that looks like
+// data (the unit-test tables hold a positive for nearly every format, among them the function detectors that have no
+// signature literal - dBase, MARC, shapefile ...), plus offset(n, "...") calls evaluated
+var testLitCache []seed
+
+func testLiteralSeeds(repo string) []seed {
+	if testLitCache != nil {
+		return testLitCache
+	}
+	seen := map[string]bool{}
+	var out []seed
+	add := func(b []byte) {
+		if len(b) < 2 || len(b) > 4096 || seen[string(b)] {
+			return
+		}
+		ascii := true
+		for _, x := range b {
+			if x < 0x20 || x > 0x7E {
+				ascii = false
+			}
+		}
+		if ascii && len(b) < 64 && !bytes.ContainsAny(b, "<{[%#\n") && (bytes.Count(b, []byte("/")) == 1 || !bytes.ContainsAny(b, " \\")) && !bytes.HasPrefix(b, []byte("PK")) {
+			return // names, MIME types, messages
+		}
+		seen[string(b)] = true
+		out = append(out, seed{"testlit", append([]byte{}, b...)})
+	}
+	files, _ := filepath.Glob(filepath.Join(repo, "*_test.go"))
+	more, _ := filepath.Glob(filepath.Join(repo, "internal", "*", "*_test.go"))
+	for _, f := range append(files, more...) {
+		fset := token.NewFileSet()
+		af, err := parser.ParseFile(fset, f, nil, 0)
+		if err != nil {
+			continue
+		}
+		ast.Inspect(af, func(n ast.Node) bool {
+			switch x := n.(type) {
+			case *ast.BasicLit:
+				if x.Kind == token.STRING {
+					if v, err := strconv.Unquote(x.Value); err == nil {
+						add([]byte(v))
+					}
+				}
+			case *ast.CallExpr:
+				if id, ok := x.Fun.(*ast.Ident); ok && id.Name == "offset" && len(x.Args) == 2 {
+					nl, ok1 := x.Args[0].(*ast.BasicLit)
+					sl, ok2 := x.Args[1].(*ast.BasicLit)
+					if ok1 && ok2 && sl.Kind == token.STRING {
+						k, e1 := strconv.Atoi(nl.Value)
+						v, e2 := strconv.Unquote(sl.Value)
+						if e1 == nil && e2 == nil && k < 4096 {
+							add(append(make([]byte, k), v...))
+						}
+					}
+				}
+			}
+			return true
+		})
+	}
+	sort.Slice(out, func(i, j int) bool { return string(out[i].data) < string(out[j].data) })
+	testLitCache = out
+	return out
 }
 
 // boundary lengths for truncation: every small length, then lengths around powers/constants
